@@ -22,6 +22,7 @@ func TestC06(t *testing.T) {
 	cfg := rsGenCfg{Rules: rc, Vary: true, MaxCycle: func(rt *rapid.T) uint64 { return 40 }}
 	check(t, 0, budget(4000, 60000), func(rt *rapid.T) {
 		c, rs := genRSCase(rt, cfg)
+		maybeFailingConditions(rt, c, rs)
 		prep, err := val.Prepare(c)
 		if err != nil {
 			rt.Fatalf("harness: %v", err)
